@@ -225,6 +225,10 @@ Definition kt_name_abi (s : string) : option abi :=
   if s =? "Long" then Some (AI 8 true) else if s =? "FFIUint64" then Some (AI 8 false) else
   if s =? "FFISizet" then Some (AIp false) else if s =? "FFIIsizet" then Some (AIp true) else
   if s =? "Float" then Some (AF 4) else if s =? "Double" then Some (AF 8) else None.
+(* a *field* of a JNA Structure / Union: JNA lays a Kotlin Boolean out as a 32-bit int there (as a parameter it is passed
+   as an int whose low byte a C bool reads), so only a one-byte type mirrors a C bool inside records *)
+Definition kt_field_abi (s : string) : option abi :=
+  if s =? "Boolean" then Some (AI 4 true) else kt_name_abi s.
 Fixpoint erase_sign (a : abi) : abi :=
   match a with
   | AI b _ => AI b false | AIp _ => AIp false
